@@ -17,7 +17,7 @@ def ErrOptOk (err : Option (List Nat)) : Prop := ∀ e, err = some e → ErrOk e
 /-- field ranges, and the canonical form of an error response (an error response carries only the
     error: the other fields are not transmitted) -/
 def RespOk : Resp → Prop
-  | .version ver uid err => ver < 4294967296 ∧ uid < SA.Gen.maxUserId ∧ ErrOptOk err
+  | .version ver uid err => ver < 4294967296 ∧ uid < SA.Gen.C09.maxUserId ∧ ErrOptOk err
   | .options err => ErrOptOk err
   | .packet err ack pkt =>
     ErrOptOk err ∧ ack < 65536 ∧ (∀ p, pkt = some p → p.1 < 65536 ∧ SA.Bytes p.2) ∧ (err.isSome → ack = 0 ∧ pkt = none)
@@ -56,8 +56,8 @@ theorem decodeResp_encodeResp (b32 down : Codec) (hb : b32.Good) (hd : down.Good
   cases r with
   | version ver uid err =>
     obtain ⟨hver, huid, herr⟩ := hr
-    have hf : SA.Gen.commandTable.find? (fun e => (118 == e.1 || lower 118 == e.1)) = some (118, false, true, true) := by decide
-    have hmod : uid % SA.Gen.maxUserId = uid := Nat.mod_eq_of_lt huid
+    have hf : SA.Gen.C09.commandTable.find? (fun e => (118 == e.1 || lower 118 == e.1)) = some (118, false, true, true) := by decide
+    have hmod : uid % SA.Gen.C09.maxUserId = uid := Nat.mod_eq_of_lt huid
     have hbody := hb.roundtrip (le32 ver ++ statusBody err [0])
       (bytes_append (bytes_le32 ver) (statusBody_bytes err [0] (fun e he => (herr e he).1) (bytes_cons (by decide) bytes_nil)))
     simp only [encodeResp, encodeUserId, hmod, List.cons_append, List.nil_append]
@@ -67,7 +67,7 @@ theorem decodeResp_encodeResp (b32 down : Codec) (hb : b32.Good) (hd : down.Good
     | none => simp [statusBody]
     | some e => simp [statusBody, errText_ok e (herr e rfl)]
   | options err =>
-    have hf : SA.Gen.commandTable.find? (fun e => (111 == e.1 || lower 111 == e.1)) = some (111, true, true, true) := by decide
+    have hf : SA.Gen.C09.commandTable.find? (fun e => (111 == e.1 || lower 111 == e.1)) = some (111, true, true, true) := by decide
     have hbody := hb.roundtrip (statusBody err [0])
       (statusBody_bytes err [0] (fun e he => (hr e he).1) (bytes_cons (by decide) bytes_nil))
     simp only [encodeResp]
@@ -77,7 +77,7 @@ theorem decodeResp_encodeResp (b32 down : Codec) (hb : b32.Good) (hd : down.Good
     | some e => simp [statusBody, errText_ok e (hr e rfl)]
   | packet err ack pkt =>
     obtain ⟨herr, hack, hpkt, hcanon⟩ := hr
-    have hf : SA.Gen.commandTable.find? (fun e => (99 == e.1 || lower 99 == e.1)) = some (99, true, true, true) := by decide
+    have hf : SA.Gen.C09.commandTable.find? (fun e => (99 == e.1 || lower 99 == e.1)) = some (99, true, true, true) := by decide
     cases err with
     | some e =>
       obtain ⟨rfl, rfl⟩ := hcanon rfl
@@ -104,7 +104,7 @@ theorem decodeResp_encodeResp (b32 down : Codec) (hb : b32.Good) (hd : down.Good
         simp [rd16_le16 ack hack, rd16_le16 seq hseq]
   | downEnc err data =>
     obtain ⟨herr, hdata, hcanon⟩ := hr
-    have hf : SA.Gen.commandTable.find? (fun e => (121 == e.1 || lower 121 == e.1)) = some (121, false, true, true) := by decide
+    have hf : SA.Gen.C09.commandTable.find? (fun e => (121 == e.1 || lower 121 == e.1)) = some (121, false, true, true) := by decide
     cases err with
     | some e =>
       have := hcanon rfl
@@ -120,7 +120,7 @@ theorem decodeResp_encodeResp (b32 down : Codec) (hb : b32.Good) (hd : down.Good
       simp
   | upEnc err data =>
     obtain ⟨herr, hdata, hcanon⟩ := hr
-    have hf : SA.Gen.commandTable.find? (fun e => (122 == e.1 || lower 122 == e.1)) = some (122, true, true, true) := by decide
+    have hf : SA.Gen.C09.commandTable.find? (fun e => (122 == e.1 || lower 122 == e.1)) = some (122, true, true, true) := by decide
     have hbody := hb.roundtrip (statusBody err (0 :: data))
       (statusBody_bytes err _ (fun e he => (herr e he).1) (bytes_cons (by decide) hdata))
     simp only [encodeResp]
@@ -133,7 +133,7 @@ theorem decodeResp_encodeResp (b32 down : Codec) (hb : b32.Good) (hd : down.Good
       simp [statusBody, errText_ok e (herr e rfl)]
   | fragSize err frag data =>
     obtain ⟨herr, hfrag, hdata, hcanon⟩ := hr
-    have hf : SA.Gen.commandTable.find? (fun e => (114 == e.1 || lower 114 == e.1)) = some (114, true, true, true) := by decide
+    have hf : SA.Gen.C09.commandTable.find? (fun e => (114 == e.1 || lower 114 == e.1)) = some (114, true, true, true) := by decide
     have hbody := hd.roundtrip (statusBody err (0 :: le32 frag ++ data))
       (statusBody_bytes err _ (fun e he => (herr e he).1) (bytes_append (bytes_cons (by decide) (bytes_le32 frag)) hdata))
     simp only [encodeResp]
@@ -145,7 +145,7 @@ theorem decodeResp_encodeResp (b32 down : Codec) (hb : b32.Good) (hd : down.Good
       simp [statusBody, errText_ok e (herr e rfl)]
   | error err =>
     obtain ⟨e, rfl, he⟩ := hr
-    have hf : SA.Gen.commandTable.find? (fun e => (101 == e.1 || lower 101 == e.1)) = some (101, false, false, true) := by decide
+    have hf : SA.Gen.C09.commandTable.find? (fun e => (101 == e.1 || lower 101 == e.1)) = some (101, false, false, true) := by decide
     have hbody := hb.roundtrip e he.1
     simp only [encodeResp, Option.getD_some]
     simp only [decodeResp, hf, if_true, decodeBody, List.drop_succ_cons, List.drop_zero, hbody]
